@@ -1,11 +1,86 @@
-(** Property C21 — free lists never hand out a node twice and never lose one.  (placeholder while the
-    proofs are being written) *)
-From Coq Require Import ZArith List String.
-From LV Require Import Base.Conc Base.Events Model.FreeList.
+(** Property C21 — FreeList, TaggedFreeList and CachedFreeList behave as a concurrent bag: a node obtained
+    by get() is not returned by another get() until it has been put() back, and once all threads are
+    quiescent every node that was put and not taken out can be obtained again.
+
+    Only statements here; proofs live in LV.Proofs.FreeList*.  Vocabulary (LV.Proofs.FreeListBase/Thm):
+    [init_cfg fuel k ths]   nodes 1..k on the list, thread i runs the get/put operations [fst (nth i ths)]
+                            and holds the nodes [snd (nth i ths)] initially; a [put j] puts back the j-th
+                            node the thread holds (client discipline: a thread puts only nodes it holds);
+    [wf_init k ths]         no node is held twice initially and held nodes are not among 1..k;
+    [mon_run own0 tr]       the ownership-map monitor run over a trace (the one harness/C21/main.cpp runs on
+                            the real code): [ret_get n] by t requires that nobody owns n and makes t the
+                            owner, [inv_put n] by t requires that t owns n; [None] = it fired;
+    [quiescent tr]          every thread has as many ret_get/ret_put as inv_get/inv_put events;
+    [chain next head l]     l is exactly the sequence of nodes reachable from head, null-terminated;
+    [drain f c g]           the nodes obtained by up to c successive get() of a single thread from state g.
+    Hypothesis of all three theorems: fewer than 2^31 - 1 threads (the 31-bit reference count cannot
+    overflow into the should-be-on-freelist bit). *)
+From Coq Require Import ZArith List String Lia.
+From LV Require Import Base.Conc Base.Events Model.FreeList Proofs.FreeListBase Proofs.FreeListThm.
 Import ListNotations.
 Local Open Scope Z_scope.
+Local Open Scope string_scope.
 
+(** cds::intrusive::FreeList, for EVERY schedule, any number of threads, nodes and operations: the
+    ownership monitor never fires, i.e. get() never returns a node that some thread still holds. *)
+Theorem C21_freelist_no_double_get :
+  forall (fuel k : nat) (ths : list (list op * list nat)) c,
+    wf_init k ths -> Z.of_nat (List.length ths) + 1 < FLAG ->
+    Conc.reach (init_cfg fuel k ths) c ->
+    exists own, mon_run (own_init ths) (Conc.trace c) = Some own.
+Proof. intros fuel k ths c Hwf HN. exact (freelist_no_double_get fuel k ths Hwf HN c). Qed.
+Print Assumptions C21_freelist_no_double_get.
+
+(** at every reachable configuration: every node is held by exactly one thread ([own n = Some t]) or
+    logically on the list ([own n = None]); the nodes reachable from m_Head form a null-terminated,
+    duplicate-free list of existing nodes that nobody holds; and a node nobody holds is on that list unless
+    some thread is inside an operation (a get that has taken it but not returned, or a put / re-add in
+    flight). *)
+Theorem C21_freelist_unique_holder :
+  forall (fuel k : nat) (ths : list (list op * list nat)) c,
+    wf_init k ths -> Z.of_nat (List.length ths) + 1 < FLAG ->
+    Conc.reach (init_cfg fuel k ths) c ->
+    exists own l,
+      mon_run (own_init ths) (Conc.trace c) = Some own /\
+      chain (next (Conc.shared c)) (head (Conc.shared c)) l /\ NoDup l /\
+      (forall n, In n l -> valid_init k ths n = true /\ own n = None) /\
+      (forall n, valid_init k ths n = true -> own n = None ->
+                 In n l \/ exists t, opens t (Conc.trace c) <> 0).
+Proof. intros fuel k ths c Hwf HN. exact (freelist_unique_holder fuel k ths Hwf HN c). Qed.
+Print Assumptions C21_freelist_unique_holder.
+
+(** in every quiescent reachable configuration the nodes reachable from m_Head are exactly the existing
+    nodes that nobody holds (put minus taken), each with reference word 1, and a single thread calling
+    get() repeatedly obtains exactly those nodes and then nullptr. *)
+Theorem C21_freelist_no_loss :
+  forall (fuel k : nat) (ths : list (list op * list nat)) c,
+    wf_init k ths -> Z.of_nat (List.length ths) + 1 < FLAG ->
+    Conc.reach (init_cfg fuel k ths) c -> quiescent (Conc.trace c) ->
+    exists own l,
+      mon_run (own_init ths) (Conc.trace c) = Some own /\
+      seq_ok (Conc.shared c) l /\
+      (forall n, In n l <-> valid_init k ths n = true /\ own n = None) /\
+      (forall f cn, (List.length l < cn)%nat -> drain (S f) cn (Conc.shared c) = l).
+Proof. intros fuel k ths c Hwf HN. exact (freelist_no_loss fuel k ths Hwf HN c). Qed.
+Print Assumptions C21_freelist_no_loss.
+
+(** non-vacuity: the hypotheses hold of a concrete instance (2 nodes on the list, thread 0 holds node 3)
+    and a concrete 2-thread run ends quiescent after the re-add race was taken: thread 1 stalls between its
+    refs CAS and its head CAS on node 2 while thread 0 takes node 2 and puts node 3; later the
+    should-be-on-freelist path (a store to next = add_knowing_refcount_is_zero) is executed *)
 Example C21_freelist_nonvacuous :
-  let r := FreeList.fl_run_case [0; 50; 3; 2; 0] [[[1];[2;0];[1]]; [[1];[2;0]]] [0;0;0;1;1;0;1;0;1;1;0;0;1]%nat 1000 in
-  snd r = true.
-Proof. vm_compute. reflexivity. Qed.
+  let ths := [([OGet; OPut 0; OGet], [3%nat]); ([OGet; OPut 0], [])] in
+  wf_init 2 ths /\ Z.of_nat (List.length ths) + 1 < FLAG /\
+  let r := Conc.run 1000 0 [0;0;0;1;1;0;1;0;1;1;0;0;1]%nat (init_cfg 50 2 ths) in
+  snd r = true /\
+  forallb (fun t => Z.eqb (opens t (Conc.trace (fst r))) 0) [0;1]%nat = true /\
+  List.length (filter (is_cli "ret_get") (map snd (Conc.trace (fst r)))) = 3%nat /\
+  existsb (fun e => match snd e with EvAcc KSt _ _ => true | _ => false end) (Conc.trace (fst r)) = true /\
+  drain 5 5 (Conc.shared (fst r)) = [1%nat].
+Proof.
+  split; [|split; [reflexivity|]].
+  - split.
+    + cbn. repeat constructor; cbn; intuition discriminate.
+    + cbn. intros n [<-|[]]. lia.
+  - vm_compute. repeat split; reflexivity.
+Qed.
